@@ -223,91 +223,81 @@ where
     // is dropped but the bytes it already consumed have been appended here, so
     // the buffer must outlive the flush and be continued by the next read.
     let mut buf⟦: Vec<u8>⟧ = Vec::new();
-@    proof { lemma_buf_at_end_empty(buf@, reader.consumed); }
+@    proof { lemma_buf_at_end_empty(buf@, reader.consumed); lemma_cons_init(s0, stream); assert(reader.consumed =~= Seq::<u8>::empty()); assert(buf@ =~= Seq::<u8>::empty()); }
     loop
 @        invariant
 @            key == compressor_client.key(), w.sink.dom().contains(key),
 @            s0 == old(w).sink[key], stream == reader__0.rest,
-@            reader.consumed + reader.rest =~= stream,
-@            w.sink[key] + buf@ =~= s0 + reader.consumed,
+@            // C08: every byte consumed from the stream is in the encoder or in the line buffer, in order
+@            conserved(w.sink[key], Seq::<u8>::empty(), buf@, s0, reader.consumed, reader.rest, stream), // [C08]
 @            forall|k: (int, int)| k != key ==> w.sink[k] == old(w).sink[k],
 @            buf_at_end(buf@, reader.consumed),
 @            (nl_terminated(stream) && !old(w).midline) ==> !w.midline,
     {
         let mut bufs⟦: Vec<Vec<u8>>⟧ = Vec::new();
-@        assert(flat(bufs@) =~= Seq::<u8>::empty());
-@        proof { lemma_all_lines_empty(bufs@); }
+@        proof { lemma_all_lines_empty(bufs@); lemma_flat_empty(bufs@); }
         loop
 @            invariant_except_break
-@                w.sink[key] + flat(bufs@) + buf@ =~= s0 + reader.consumed,
+@                conserved(w.sink[key], flat(bufs@), buf@, s0, reader.consumed, reader.rest, stream), // [C08]
 @            invariant
 @                key == compressor_client.key(), w.sink.dom().contains(key), s0 == old(w).sink[key], stream == reader__0.rest,
-@                reader.consumed + reader.rest =~= stream,
 @                forall|k: (int, int)| k != key ==> w.sink[k] == old(w).sink[k],
 @                buf_at_end(buf@, reader.consumed),
 @                (nl_terminated(stream) && !old(w).midline) ==> !w.midline,
 @                nl_terminated(stream) ==> all_lines(bufs@), // [C20] buffers waiting for a flush are whole lines
 @            ensures
-@                w.sink[key] + buf@ =~= s0 + reader.consumed,
+@                conserved(w.sink[key], Seq::<u8>::empty(), buf@, s0, reader.consumed, reader.rest, stream),
         {
 @            let ghost c0 = reader.consumed;
+@            let ghost r0 = reader.rest;
 @            let ghost b0 = buf@;
 @            let ghost k0 = w.sink[key];
             match select_choice(3) {
 0 => { let _ = token.cancelled().await; reader.read_until_dropped(b'\n', &mut buf);
-@                    assert(k0 + flat(bufs@) + buf@ =~= s0 + reader.consumed) by { assert(k0 + flat(bufs@) + (b0 + read_chunk(b0, buf@)) =~= (k0 + flat(bufs@) + b0) + read_chunk(b0, buf@)); }
-@                    assert(reader.consumed + reader.rest =~= stream) by { assert((c0 + read_chunk(b0, buf@)) + reader.rest =~= c0 + (read_chunk(b0, buf@) + reader.rest)); }
-@                    proof { lemma_after_read(b0, buf@, c0, reader.consumed); }
+@                    proof { lemma_cons_read(k0, flat(bufs@), b0, buf@, s0, c0, reader.consumed, r0, reader.rest, stream); lemma_after_read(b0, buf@, c0, reader.consumed); }
                     if !buf.is_empty() {
-@                        let ghost ob = bufs@;
                         bufs.push(mem::take(&mut buf));
-@                        proof { lemma_flat_push(ob, bufs@[bufs@.len() - 1]); assert(bufs@ =~= ob.push(bufs@[bufs@.len() - 1])); }
                     }
                     process_bufs(&header, bufs, &compressor_client, &mut log_stream_client, true, Tracked(w)).await?;
                     return Err(MonorailError::TaskCancelled); }
 1 => { let res = reader.read_until(b'\n', &mut buf).await;
-@                    assert(k0 + flat(bufs@) + buf@ =~= s0 + reader.consumed) by { assert(k0 + flat(bufs@) + (b0 + read_chunk(b0, buf@)) =~= (k0 + flat(bufs@) + b0) + read_chunk(b0, buf@)); }
-@                    assert(reader.consumed + reader.rest =~= stream) by { assert((c0 + read_chunk(b0, buf@)) + reader.rest =~= c0 + (read_chunk(b0, buf@) + reader.rest)); }
-@                    proof { lemma_after_read(b0, buf@, c0, reader.consumed); }
+@                    proof { lemma_cons_read(k0, flat(bufs@), b0, buf@, s0, c0, reader.consumed, r0, reader.rest, stream); lemma_after_read(b0, buf@, c0, reader.consumed); }
                     match res {
                         Ok(0) => {
-@                            assert(reader.rest.len() == 0);
-@                            assert(reader.consumed =~= stream);
                             if !buf.is_empty() {
 @                                let ghost ob = bufs@;
-@                                proof { if nl_terminated(stream) { lemma_line_at_eof(buf@, reader.consumed, reader.rest, stream); } }
+@                                let ghost line = buf@;
+@                                proof { if nl_terminated(stream) { lemma_cons_stream(k0, flat(bufs@), buf@, s0, reader.consumed, reader.rest, stream); lemma_line_at_eof(buf@, reader.consumed, reader.rest, stream); } }
                                 bufs.push(mem::take(&mut buf));
-@                                proof { lemma_flat_push(ob, bufs@[bufs@.len() - 1]); assert(bufs@ =~= ob.push(bufs@[bufs@.len() - 1])); if nl_terminated(stream) { lemma_all_lines_push(ob, bufs@[bufs@.len() - 1]); } }
+@                                proof { lemma_cons_push(k0, ob, bufs@[bufs@.len() - 1], bufs@, buf@, s0, reader.consumed, reader.rest, stream); if nl_terminated(stream) { lemma_all_lines_push(ob, bufs@[bufs@.len() - 1]); } }
                             }
-@                            assert(buf@ =~= Seq::<u8>::empty());
-@                            assert(w.sink[key] + flat(bufs@) =~= s0 + stream);
+@                            let ghost pend = flat(bufs@);
+@                            let ghost lastbuf = buf@;
                             process_bufs(&header, bufs, &compressor_client, &mut log_stream_client, true, Tracked(w)).await?;
-@                            assert(w.sink[key] =~= s0 + stream);
+@                            proof { lemma_cons_done(k0, pend, lastbuf, s0, reader.consumed, reader.rest, stream); }
                             return Ok(());
                         },
                         Ok(_n) => {
 @                            let ghost ob = bufs@;
 @                            let ghost line = buf@;
 @                            // a completed read ends with the newline - or with the end of the stream, which is a newline for newline-terminated output
-@                            assert(nl_terminated(stream) ==> line.len() > 0 && line.last() == 10u8) by { if nl_terminated(stream) && reader.rest.len() == 0 { lemma_line_at_eof(line, reader.consumed, reader.rest, stream); } }
+@                            assert(nl_terminated(stream) ==> line.len() > 0 && line.last() == 10u8) by { if nl_terminated(stream) && reader.rest.len() == 0 { lemma_cons_stream(k0, flat(bufs@), buf@, s0, reader.consumed, reader.rest, stream); lemma_line_at_eof(line, reader.consumed, reader.rest, stream); } }
                             bufs.push(mem::take(&mut buf));
-@                            proof { lemma_flat_push(ob, bufs@[bufs@.len() - 1]); assert(bufs@ =~= ob.push(bufs@[bufs@.len() - 1])); if nl_terminated(stream) { lemma_all_lines_push(ob, bufs@[bufs@.len() - 1]); } lemma_buf_at_end_empty(buf@, reader.consumed); }
+@                            proof { lemma_cons_push(k0, ob, bufs@[bufs@.len() - 1], bufs@, buf@, s0, reader.consumed, reader.rest, stream); if nl_terminated(stream) { lemma_all_lines_push(ob, bufs@[bufs@.len() - 1]); } lemma_buf_at_end_empty(buf@, reader.consumed); }
                         }
                         Err(e) => {
                             if !buf.is_empty() {
-@                                let ghost ob = bufs@;
                                 bufs.push(mem::take(&mut buf));
-@                                proof { lemma_flat_push(ob, bufs@[bufs@.len() - 1]); assert(bufs@ =~= ob.push(bufs@[bufs@.len() - 1])); }
                             }
                             process_bufs(&header, bufs, &compressor_client, &mut log_stream_client, true, Tracked(w)).await?;
                             return Err(MonorailError::from(e));
                         }
                     } }
 _ => { let _ = interval.tick().await; reader.read_until_dropped(b'\n', &mut buf);
-@                    assert(k0 + flat(bufs@) + buf@ =~= s0 + reader.consumed) by { assert(k0 + flat(bufs@) + (b0 + read_chunk(b0, buf@)) =~= (k0 + flat(bufs@) + b0) + read_chunk(b0, buf@)); }
-@                    assert(reader.consumed + reader.rest =~= stream) by { assert((c0 + read_chunk(b0, buf@)) + reader.rest =~= c0 + (read_chunk(b0, buf@) + reader.rest)); }
-@                    proof { lemma_after_read(b0, buf@, c0, reader.consumed); }
+@                    proof { lemma_cons_read(k0, flat(bufs@), b0, buf@, s0, c0, reader.consumed, r0, reader.rest, stream); lemma_after_read(b0, buf@, c0, reader.consumed); }
+@                    let ghost pend = flat(bufs@);
                     process_bufs(&header, bufs, &compressor_client, &mut log_stream_client, false, Tracked(w)).await?;
+@                    proof { lemma_cons_flush(k0, pend, buf@, s0, reader.consumed, reader.rest, stream); }
                     break; }
 }
         }
